@@ -1,3 +1,4 @@
 SPECIFICATION Spec
-CONSTANTS C = {1, 2} MaxG = 3 MaxLoads = 3 RegAtomic = FALSE
-INVARIANTS AccountedEqualsLive FollowsLast
+CONSTANTS C = {1, 2} MaxG = 3 MaxLoads = 2 RegAtomic = FALSE RelAtomic = TRUE
+INVARIANTS AccountedEqualsLive FollowsLast LiveCachesManaged
+VIEW View
